@@ -91,12 +91,17 @@ fn needs_parens(e: &Expr, cx: Cx) -> bool {
         Cx::Top => false,
         Cx::AssignRhs => matches!(e, Expr::Assign { .. }),
         Cx::PrefixOperand => !is_primary(e),
+        // an if- or loop-expression is complete once its last block closes, like a call or an index expression:
+        // as an operand of a binary operator it needs no parentheses (`als c { 1 } anders { 2 } + 1` is
+        // `(als … ) + 1`, whether or not the alternative is an `anders als` chain)
         Cx::Left(l) => match e {
             Expr::Infix { op, .. } => op.level() < l,
+            Expr::If { .. } | Expr::While { .. } => false,
             _ => !is_primary(e),
         },
         Cx::Right(l) => match e {
             Expr::Infix { op, .. } => op.level() <= l,
+            Expr::If { .. } | Expr::While { .. } => false,
             _ => !is_primary(e),
         },
     }
@@ -420,7 +425,7 @@ fn random_sep(r: &mut Rng, allow_empty: bool, ls: &mut LayoutStats) -> String {
         }
         6 => {
             ls.comments += 1;
-            let body = *r.pick(&["", " commentaar", " x = 1; \"niet\" { [ (", "//", " é💖", " stel als anders"]);
+            let body = *r.pick(&["", " commentaar", " x = 1; \"niet\" { [ (", "//", " é💖", " stel als anders", " tel er één dozijn bij op", "💖💖💖"]);
             format!(" //{}\n", body)
         }
         7 => "\t".to_string(),
